@@ -160,6 +160,10 @@ theorem loop2_some (vs : List (Comp × Val)) (bts : List BatchTable) (s : List B
     ⟨s ++ [BatchTable.mk b.oldT b.newT (w.tbl b.newT).len (w.tbl b.oldT).len],
       by simp only [M.bind_apply, exchangeTable_eq, batchFn_eq, M.pure_apply, moveStep]⟩) bts s w
 
+/-- registering no target changes nothing (the registration `exchangeBatch` performs after the
+    lookup loop, in a world without relations) -/
+theorem registerTargets_nil_apply (w : World) : registerTargets [] w = .ok () w := rfl
+
 /-- the lookup loop neither reads nor writes observers, log and lock -/
 theorem frames_findLoop (add rem : List Comp) : ∀ (ts : List Nat) (s : Bool × List BatchTable),
     Frames (findLoop add rem ts s)
@@ -178,8 +182,8 @@ theorem frames_findLoop (add rem : List Comp) : ∀ (ts : List Nat) (s : Bool ×
       | ok x w' => exact frames_findLoop add rem ts _ w' o lg lk
 
 /-- without observers, `exchangeBatch` (no relations) is — in the order in which it runs since the
-    repair of defect D27 —: the table selection, the lookup loop, `Lock`, the move loop (with the
-    callback), `Unlock` -/
+    repair of defect D27 —: the table selection, the lookup loop, (`registerTargets []`: nothing
+    to register without relations,) `Lock`, the move loop (with the callback), `Unlock` -/
 theorem exchangeBatch_eq_planFirst (run : ProbeRunner) (fo : FilterObj) (extra : List RelID)
     (add rem : List Comp) (vals : Option (List (Comp × Val))) (w : World) (hl : w.isLocked = false)
     (hne : (add.isEmpty && rem.isEmpty) = false) {ts : List Nat}
@@ -203,7 +207,7 @@ theorem exchangeBatch_eq_planFirst (run : ProbeRunner) (fo : FilterObj) (extra :
     | (unfold exchangeBatch
        simp only [M.bind_apply, checkLocked_unlocked w hl, M.assert_apply, hr, ha, Bool.and_self,
         Bool.and_false, Bool.false_and, Bool.not_false, Bool.not_true, if_true, hts,
-        forIn_findLoop, hfind, lock_ok hlk, M.get_apply, hno1, Bool.false_eq_true, if_false, h2,
+        forIn_findLoop, hfind, registerTargets_nil_apply, lock_ok hlk, M.get_apply, hno1, Bool.false_eq_true, if_false, h2,
         hno2])
   | some vs =>
     obtain ⟨s2, h2⟩ := loop2_some vs bts [] { w1 with locks := l' }
@@ -213,7 +217,7 @@ theorem exchangeBatch_eq_planFirst (run : ProbeRunner) (fo : FilterObj) (extra :
     | (unfold exchangeBatch
        simp only [M.bind_apply, checkLocked_unlocked w hl, M.assert_apply, hr, ha, Bool.and_self,
         Bool.and_false, Bool.false_and, Bool.not_false, Bool.not_true, if_true, hts,
-        forIn_findLoop, hfind, lock_ok hlk, M.get_apply, hno1, Bool.false_eq_true, if_false, h2,
+        forIn_findLoop, hfind, registerTargets_nil_apply, lock_ok hlk, M.get_apply, hno1, Bool.false_eq_true, if_false, h2,
         hno2])
 
 /-- when the lookup loop panics, `exchangeBatch` panics with the same class and the same state:
